@@ -2,7 +2,7 @@
    Statements only; proofs are in Config/*_proofs.v, concrete instances in Config/Witness.v.
    The model is of the code with fixes/C15-*.patch applied (each defect was first exhibited as a
    refuted statement and replayed on the real library, see docs/C15.md). *)
-From CAres.Config Require Import Spec Vif Lines_proofs Total_proofs Ranges_proofs Chan_ranges Witness.
+From CAres.Config Require Import Spec Vif HostsSpec Lines_proofs Total_proofs Ranges_proofs Chan_ranges Hosts_proofs Witness.
 From CAres.Gen Require Import Consts.
 From Coq Require Import String.
 Local Open Scope string_scope.
@@ -101,3 +101,22 @@ Theorem C15_ranges_reinit_servers : forall nf e c c',
   reinit nf e c = Ok c' -> c_servers c <> [] -> c_servers c' <> [].
 Proof. exact Chan_ranges.reinit_keeps_servers. Qed.
 Print Assumptions C15_ranges_reinit_servers.
+
+(* The hosts file (ares_hosts_file.c).  Totality: reading any content succeeds and yields tables
+   in which no entry dangles, so a lookup never follows a stale pointer ... *)
+Theorem C15_hosts_total : forall nf content, exists hf, parse_hosts nf content = Ok hf /\ hf_wf hf.
+Proof. exact parse_hosts_total. Qed.
+Print Assumptions C15_hosts_total.
+
+Theorem C15_hosts_search_total : forall nf content hf name,
+  parse_hosts nf content = Ok hf -> exists r, hosts_search_host hf name = Ok r.
+Proof. exact hosts_search_total. Qed.
+Print Assumptions C15_hosts_search_total.
+
+(* ... and junk independence on the file text: a raw line that hosts(5) does not allow (blank,
+   comment, no address, no usable name) can be inserted anywhere without changing the result *)
+Theorem C15_hosts_junk_independent : forall nf rs1 j rs2 c,
+  Forall no_nl rs1 -> no_nl j -> Forall no_nl rs2 -> junk_hosts_class nf j = Some c ->
+  parse_hosts nf (unlines (rs1 ++ j :: rs2)) = parse_hosts nf (unlines (rs1 ++ rs2)).
+Proof. exact junk_hosts_file_independent. Qed.
+Print Assumptions C15_hosts_junk_independent.
